@@ -41,6 +41,7 @@ def mutants(prog):
         ("evaluate: crop offset", B, "evaluate_cubic_bspline", "output = output[(slice(0, N), slice(0, C)) + tuple((slice(0, n) for n in shape))]", "output = output[(slice(0, N), slice(0, C)) + tuple((slice(1, n + 1) for n in shape))]", "T3.evaluate"),
         ("evaluate: interleave order", B, "evaluate_cubic_bspline", "output = output.transpose(2, 3).flatten(2, 3)", "output = output.flatten(2, 3)", "T3.evaluate"),
         ("ffd refine crop", S, "BSplineTransform.grid_", "new_params = new_params.narrow(dim, 1, new_shape[dim])", "new_params = new_params.narrow(dim, 0, new_shape[dim])", "T6x.regrid"),
+        ("bspline derivative: spacing power dropped", "deepali.core.image", "spatial_derivatives", "denom.mul_(delta.pow(d))", "denom.mul_(delta)", "T5.bspline"),
     ]
     for name, mod, fn, old, new, expect in specs:
         ov = source_sub(prog, mod, fn, old, new)
